@@ -1265,6 +1265,11 @@ def _build_staircase(U, rtol=1e-12, atol=1e-12):
                 sum_of_column = 0
                 for k in range(i):
                     sum_of_column += pow(np.absolute(running_prod[k, 0]), 2)
+                if np.isclose(sum_of_column, 1, rtol=rtol, atol=atol):
+                    # the remaining entries of the column are already zero: nothing to do
+                    # between these modes (dividing by cf = 0 would give NaNs)
+                    transformations.append([0.0, 0.0, 0.0])
+                    continue
                 cf = np.sqrt(1 - sum_of_column)
 
                 y, z = running_prod[i, 0], running_prod[j, 0]
